@@ -54,6 +54,9 @@ CHECKS = {
  'C13': dict(level='model_checking', technique='symbolic execution (z3) of Server.run from its first line with stubbed environment, symbolic boards and a symbolic abort point (board, phase) x exception kind; captured file parsed by the real json module',
              text='Every path of the real run() (its with/try structure and the real JsonLogWriter interpreted) over 1..3 symbolic boards where the auction or the play of board k raises Exception or KeyboardInterrupt: the output file is closed, is one JSON document and holds exactly boards 1..k-1, each schema-valid. Replay runs the real server with four bundled clients over in-memory sockets, injects the exception and parses the file from disk.',
              note='The position inside the auction/play is not visible to run(); that an offending action surfaces as an exception of bidding_phase/playing_phase is by reading (they raise before touching the writer).', ref='§4 C13'),
+ 'C18': dict(level='model_checking', technique='symbolic execution (z3) of PbnWriter.write_board_result followed by the real PbnParser (sre-semantics regex model) on the written text with symbolic characters; one symbolic board result inside sequences of 1..3',
+             text='The real writer is executed on a symbolic result (dealer, vulnerability, board number, passed out or contract text, declarer, result, two free-text fields over the property alphabet incl. adjacent spaces) and its text is parsed by the real parser: one game per result in order, exactly the fifteen tags with the written values (All / empty / Pass conventions), board settings recovered, all lines <= 255.',
+             note='Deal-line hand codec and str(contract) are replaced by their contracts (C14, C15). write_line splitting of over-long strings is outside (excluded by the property).', ref='§4 C18'),
 }
 
 
